@@ -83,6 +83,34 @@ def run(ctx, prog, res):
     r2.check(not never, {"information_carrying_rules": len(info), "reach_a_builder_or_table": len(info) - len(never), "markers": sorted(a.markers)[:12]}, "C05.R2:unreached",
              "grammar rules whose tokens never reach a builder: %s" % never)
     r2.ok({"value_returns_with_unconsumed_information": len(left)})
+    # ... and nothing built is dropped: when a builder's tuple result is taken apart, every component that is used
+    # at all reaches every value the function returns afterwards
+    n_t = 0
+    for f in prog.fns.values():
+        if f.crate != lib.SYN or f.module != builder.MOD or f.kind != "Fn" or f.from_expansion:
+            continue
+        tl = {}
+        for bb, b in f.live_blocks():
+            for st in b["stmts"]:
+                if st["k"] != "assign" or st["rv"]["k"] != "use":
+                    continue
+                pl = lib.operand_place(st["rv"]["op"])
+                if pl and len(pl["p"]) == 1 and isinstance(pl["p"][0], dict) and "f" in pl["p"][0] and f.locals[pl["l"]]["ty"].startswith("("):
+                    tl.setdefault(pl["l"], {}).setdefault(pl["p"][0]["f"], []).append(bb)
+        rets = [(bb, st) for bb, b in f.live_blocks() for st in b["stmts"] if st["k"] == "assign" and st["dst"]["l"] == 0 and not st["dst"]["p"] and st["rv"]["k"] == "agg" and st["rv"].get("variant") == "Ok"]
+        for l, comps in tl.items():
+            base = flow.shape(f, l, depth=10)
+            if "build_" not in base:
+                continue
+            for bb, st in rets:
+                if not any(f.dominates(ub, bb) for v in comps.values() for ub in v):
+                    continue
+                sh = flow.rv_shape(f, st["rv"], depth=12)
+                missing = [i for i in sorted(comps) if (base + ".%d" % i) not in sh]
+                n_t += 1
+                r2.check(not missing, {"fn": f.name, "result_of": re.sub(r"\(.*", "", base.replace("alt(", ""))[:60], "components_reaching_the_result": sorted(comps)}, "C05.R2:dropped:%s" % f.id,
+                         "%s takes the result of %s apart and returns a value that drops component(s) %s of it (e.g. the `\"label\":` comment of a rule without weekday or time selector)" % (f.id, base[:80], missing), lib.where_of(f, st))
+    r2.check(n_t >= 4, {"tuple_results_followed_to_the_return": n_t}, "C05.R2:dropped:FLOOR", "FLOOR: expected at least 4 destructured builder results, found %d" % n_t)
 
     # R3 -------------------------------------------------------------------------------------
     r3 = res.rule("C05.R3", "numeric token languages are exactly the documented ranges and fit the types they are parsed into; the listed out-of-range inputs are rejected (exhaustive enumeration of digit strings with a PEG matcher on the grammar)")
